@@ -10,7 +10,7 @@ RULE = ("8 small models (chain; loop with tank; pump + tank with level controls 
         "k-th NewtonSolver.solve runs with maxiter=1 (also with the line search off / starting after the limit, maxiter=2); singular Jacobian: the k-th solve sees a Jacobian with a zeroed row (from its first or from its second iteration on), which "
         "makes spsolve raise the library's MatrixRankWarning; line-search failure: BT_MAXITER=1 and a perturbed start} x "
         "convergence_error {False, True} x backup solver {none, succeeding, failing too}; trial-limit faults: trials {0, 1} and two "
-        "mutually contradicting pressure controls; fault-free shape family: 3 (7) models x duration {0, < step, off grid, ...} x hydraulic step {1 h, 30 min, 45 min} x report step {= step, 2 h, 90 min, 15 min, ALL}.  thorough adds every PAIR of faults k1 < k2 with a succeeding backup and "
+        "mutually contradicting pressure controls; fault-free shape family: 3 (7) models x duration {0, < step, off grid, ...} x hydraulic step {1 h, 30 min, 45 min} x report step {= step, 2 h, 90 min, 15 min, ALL}; the same clause for runs paused at {0,1,2,3,4 h} and continued (report step 2x / 3x the hydraulic step, equal, ALL).  thorough adds every PAIR of faults k1 < k2 with a succeeding backup and "
         "30-min steps.  non-trivial: the injected fault really made the k-th solve return SolverStatus.error")
 ASSUMPTIONS = ["faults are injected by wrapping NewtonSolver.solve / Model.evaluate_jacobian in the harness process; the library's own error paths are executed",
                "termination is judged against a 60 s wall-clock horizon per execution"]
@@ -208,6 +208,11 @@ def cases(tier):
     for name in ("looptank", "pumpctl", "all_offgrid") if tier == "quick" else ("chain", "looptank", "pumpctl", "pdd", "isolated", "all_offgrid", "resolve"):
         for dur, hyd, rep in itertools.product(durs, (3600, 1800, 2700), (None, 7200, 5400, 900, "ALL")):
             out.append({"model": name, "mode": "shape", "dur": dur, "hyd": hyd, "rep": rep})
+    # the same shape clause for a run that is paused and continued (a new simulator on the same model): every part is
+    # well-formed and on the report grid of the WHOLE run, also when the pause falls between two report instants
+    for name in ("looptank", "pumpctl") if tier == "quick" else ("chain", "looptank", "pumpctl", "pdd", "all_offgrid"):
+        for pause, (hyd, rep) in itertools.product((0, 3600, 7200, 10800, 14400), ((3600, 7200), (3600, 10800), (1800, 3600), (3600, None), (3600, "ALL"))):
+            out.append({"model": name, "mode": "shape_paused", "dur": 21600, "pause": pause, "hyd": hyd, "rep": rep})
     return out
 
 
@@ -342,6 +347,33 @@ def run_case(c):
         if solved and (solved[0] != 0 or solved[-1] != last or any(t % hyd == 0 and t not in solved for t in range(0, last + 1, hyd))):
             viol.append({"key": "shape:hydraulic-grid", "what": "duration %d, hydraulic step %d: solved instants %s do not cover the hydraulic grid up to %d" % (c["dur"], hyd, solved, last)})
         return {"viol": viol[:4], "nontrivial": c["dur"] >= hyd, "outcome": "shape:%s" % ("ALL" if rep == "ALL" else ("adjusted" if adjusted else "grid")), "counts": counts}
+    if c["mode"] == "shape_paused":
+        import wntr, warnings
+        hyd = c["hyd"]
+        rep = hyd if c["rep"] is None else c["rep"]
+        s["opts"].update(dur=c["pause"], hyd=hyd, rep=rep, pat=min(s["opts"].get("pat", 3600), hyd))
+        wn = build(s)
+        parts = []
+        for stop in (c["pause"], c["dur"]):
+            wn.options.time.duration = stop
+            with warnings.catch_warnings():
+                warnings.simplefilter("ignore")
+                parts.append(wntr.sim.WNTRSimulator(wn).run_sim())
+        counts["executions"] = 2
+        if any(r.error_code is not None for r in parts):
+            return {"viol": [], "nontrivial": False, "outcome": "shape_paused:not-converged", "counts": counts}
+        for k, r in enumerate(parts):
+            wv, idx = wellformed(s, wn, r)
+            for x in wv:
+                x["key"] = "paused:" + x["key"]; x["what"] = "part %d of a run paused at %d (hydraulic step %d, report step %s): %s" % (k + 1, c["pause"], hyd, rep, x["what"])
+            viol += wv
+            if rep != "ALL":
+                exp = [t for t in range(0, c["dur"] + 1, rep) if (t <= c["pause"] if k == 0 else t > c["pause"])]
+                if idx != exp:
+                    viol.append({"key": "paused:shape:report-grid", "what": "part %d of a run paused at %d (hydraulic step %d, report step %s) reports %s, expected %s" % (k + 1, c["pause"], hyd, rep, idx, exp)})
+            elif k == 1 and idx and idx[0] <= c["pause"]:
+                viol.append({"key": "paused:shape:revisits", "what": "continued part starts at %s, pause at %d" % (idx[:2], c["pause"])})
+        return {"viol": viol[:4], "nontrivial": c["pause"] > 0, "outcome": "shape_paused:%s" % ("ALL" if rep == "ALL" else ("on-grid" if c["pause"] % rep == 0 else "off-grid")), "counts": counts}
     if c["mode"] == "reuse":
         r0 = run_model(s, {}, False, False)
         N = len(r0["calls"])
